@@ -462,11 +462,9 @@ func c11ManyAllTags() []c11ManyTag {
 // the counts: around the powers of two and of ten a limit, a table size or a counter width is likely to be
 func c11ManyLadder(e *Env) []int {
 	if e.Thorough() {
-		var xs []int
-		for i := 1; i <= 300; i++ {
-			xs = append(xs, i)
-		}
-		return append(xs, 499, 500, 501, 511, 512, 513, 999, 1000, 1001, 1023, 1024, 1025, 2049, 4097, 10001, 65537)
+		// (every count up to 300 × every tag × every form took hours: the thorough tier takes a denser ladder, all
+		// forms for every tag up to 129 repetitions and rotating forms above; the random part draws the other counts)
+		return []int{1, 2, 3, 5, 9, 16, 17, 33, 64, 65, 99, 100, 101, 102, 127, 128, 129, 200, 255, 256, 257, 300, 511, 512, 513, 1000, 1024, 1025, 2049, 4097}
 	}
 	return []int{1, 3, 17, 65, 101, 129, 257, 1025}
 }
@@ -499,6 +497,9 @@ func c11Many(e *Env) error {
 				// quick tier: the bare `ignore missing` tags in every form at every count; every other tag in a third
 				// of the forms per count (rotating: three neighbouring counts of the ladder cover all forms), and in
 				// one form at the counts above 129 (a third of them above 257)
+				if e.Thorough() && !bare && n > 129 && (ti+form+ni)%3 != 0 {
+					continue
+				}
 				if !e.Thorough() && !bare {
 					if n <= 129 && (ti+form+ni)%3 != 0 {
 						continue
@@ -520,7 +521,7 @@ func c11Many(e *Env) error {
 	}
 	// random: units of 1-3 tags, any form, any count
 	rg := e.Rng
-	for i, n := 0, e.N(100, 20000); i < n && !r.Full(); i++ {
+	for i, n := 0, e.N(100, 3000); i < n && !r.Full(); i++ {
 		if err := c11ManyCheck(e, c11ManyRandomCase(rg, tags, ladder), i%10 == 0); err != nil {
 			return err
 		}
